@@ -188,6 +188,9 @@ def run(ctx):
     # members that share a name and a referenced type, each with its own use (SIZE / OPTIONAL / DEFAULT / tag): the compiled-type cache
     from .. import aliasfam
     aliasfam.run_c01(ctx, ctx.rng, ctx.n(40, 600), impl, ['ber', 'der', 'per', 'uper', 'oer'], py_equal)
+    # the generator's types under explicit tagging (EXPLICIT / IMPLICIT TAGS, hand-written tags, legally untagged components)
+    from .. import tagged
+    tagged.run(ctx, 'C01', ctx.rng, ctx.n(150, 2500), impl, ['ber', 'der', 'per', 'uper', 'oer'], Gen, Opts, module_text)
 
 
 WITNESSES = [
